@@ -225,7 +225,7 @@ impl Property for C19 {
     fn budget(&self, tier: Tier) -> Budget {
         match tier {
             Tier::Quick => Budget { release: 3_000_000, dbg: 1_000_000, workers: 8 },
-            Tier::Thorough => Budget { release: 24_000_000, dbg: 6_000_000, workers: 16 },
+            Tier::Thorough => Budget { release: 160_000_000, dbg: 40_000_000, workers: 16 },
         }
     }
 }
